@@ -182,6 +182,22 @@ class _SktimeForecaster(BaseForecaster):
         finally:
             # re-set cutoff to initial value
             self._set_cutoff(cutoff)
+            # ... and that of fitted component forecasters (composites): they make
+            # the forecasts, so they must answer from the cutoff the composite reports
+            def _restore(forecaster):
+                components = getattr(
+                    forecaster, "_get_fitted_component_forecasters", lambda: []
+                )()
+                for component in components:
+                    if hasattr(component, "_set_cutoff"):
+                        component._set_cutoff(cutoff)
+                    _restore(component)
+
+            _restore(self)
+
+    def _get_fitted_component_forecasters(self):
+        """Fitted forecasters this forecaster delegates to (composites override)."""
+        return []
 
     @property
     def fh(self):
